@@ -277,8 +277,11 @@ def requests_C09gen(docs, emitted, seed, tier):
                         ms = mutate_bytes(b, r, tier)
                         if tier == "quick":
                             ms = r.sample(ms, min(len(ms), 40))
+                        # (no re-encode / re-decode step on adversarial bytes: what a retention build keeps of them need not be a valid
+                        # encoding, and the harness must not hand that to the unchecked decoder, whose contract requires valid input)
+                        nr = "" if " nort" in oo else " nort"
                         for m in ms:
-                            out.append(f"gb {vn} {it['name']} {p} {m.hex() or '-'}{oo}")
+                            out.append(f"gb {vn} {it['name']} {p} {m.hex() or '-'}{nr}{oo}")
                         if not keep:
                             for m in r.sample(ms, min(len(ms), 12 if tier == "quick" else 60)):
                                 chunks = ",".join(str(r.choice([0, 1, 1, 2, 3, 7, 64])) for _ in range(r.randrange(0, 12))) or "-"
